@@ -4,6 +4,7 @@ import TypstyleModel.Proofs.CarriesCall
 import TypstyleModel.Proofs.CarriesRaw
 import TypstyleModel.Proofs.CarriesDot
 import TypstyleModel.Proofs.CarriesMath
+import TypstyleModel.Proofs.CarriesMathArgs
 import TypstyleModel.Proofs.CarriesImport
 import TypstyleModel.Proofs.CarriesTable
 /-! The knot (route M): **for every tree of the covered fragment, the printed family carries exactly
@@ -236,8 +237,20 @@ def inFragM : ANode → Bool
 /-- The children of a call in math mode: the callee, and the arguments (a math sequence). -/
 def inFragMCallL : List ANode → Bool
   | [] => true
-  | (.inner .args acs _) :: cs => inFragMS false acs && inFragMCallL cs
+  | (.inner .args acs _) :: cs => inFragMA false acs && inFragMCallL cs
   | c :: cs => inFragM c && inFragMCallL cs
+/-- The children of the argument list of a call in math mode: a math sequence in which named and spread
+arguments may occur; their children are a math sequence again (without a bare `_`). -/
+def inFragMA : Bool → List ANode → Bool
+  | _, [] => true
+  | hh, c :: cs =>
+    (if c.kind == .named || c.kind == .spread then
+      (match c with
+        | .inner _ ccs _ => !hh && inFragMS false ccs && ccs.all (fun x => x.kind != .underscore)
+        | .leaf _ _ _ => false)
+     else if isExpr c then (if hh then inFrag c else inFragM c)
+     else ANode.tokensAreLeaves c && (c.kind == .space || c.kind == .hash || isCommentKind c.kind || c.kind.isPlainToken || c.kind == .underscore)) &&
+    inFragMA (c.kind == .hash) cs
 /-- A sequence of children converted in math mode; the flag: the previous sibling is `#`, so the child is
 converted in code mode. -/
 def inFragMS : Bool → List ANode → Bool
@@ -329,7 +342,7 @@ theorem inFragMCallL_lex : (cs : List ANode) → inFragMCallL cs = true → ANod
   | (.inner .args acs aa) :: cs, h => by
     simp only [inFragMCallL, Bool.and_eq_true] at h
     simp only [ANode.tokensAreLeavesL, ANode.tokensAreLeaves, Bool.and_eq_true]
-    exact ⟨⟨rfl, inFragMS_lex false acs h.1⟩, inFragMCallL_lex cs h.2⟩
+    exact ⟨⟨rfl, inFragMA_lex false acs h.1⟩, inFragMCallL_lex cs h.2⟩
   | (.leaf k t a) :: cs, h => by
     simp only [inFragMCallL, Bool.and_eq_true] at h
     simp only [ANode.tokensAreLeavesL, Bool.and_eq_true]
@@ -339,7 +352,7 @@ theorem inFragMCallL_lex : (cs : List ANode) → inFragMCallL cs = true → ANod
     · subst hk
       simp only [inFragMCallL, Bool.and_eq_true] at h
       simp only [ANode.tokensAreLeavesL, ANode.tokensAreLeaves, Bool.and_eq_true]
-      exact ⟨⟨rfl, inFragMS_lex false ics h.1⟩, inFragMCallL_lex cs h.2⟩
+      exact ⟨⟨rfl, inFragMA_lex false ics h.1⟩, inFragMCallL_lex cs h.2⟩
     · have he : inFragMCallL (.inner k ics a :: cs) = (inFragM (.inner k ics a) && inFragMCallL cs) := by
         cases k <;> first | exact absurd rfl hk | rfl
       rw [he] at h
@@ -358,6 +371,37 @@ theorem inFragMS_lex : (hh : Bool) → (cs : List ANode) → inFragMS hh cs = tr
       · exact inFrag_lex c h1
       · exact inFragM_lex c h1
     · simp only [Bool.and_eq_true] at h1; exact h1.1
+theorem inFragMA_lex : (hh : Bool) → (cs : List ANode) → inFragMA hh cs = true → ANode.tokensAreLeavesL cs = true
+  | _, [], _ => rfl
+  | hh, (.leaf k t a) :: cs, h => by
+    simp only [inFragMA, Bool.and_eq_true] at h
+    simp only [ANode.tokensAreLeavesL, Bool.and_eq_true]
+    refine ⟨?_, inFragMA_lex _ cs h.2⟩
+    have h1 := h.1
+    split at h1
+    · cases h1
+    · split at h1
+      · split at h1
+        · exact inFrag_lex _ h1
+        · exact inFragM_lex _ h1
+      · simp only [Bool.and_eq_true] at h1; exact h1.1
+  | hh, (.inner k ccs a) :: cs, h => by
+    simp only [inFragMA, Bool.and_eq_true] at h
+    simp only [ANode.tokensAreLeavesL, Bool.and_eq_true]
+    refine ⟨?_, inFragMA_lex _ cs h.2⟩
+    have h1 := h.1
+    split at h1
+    · rename_i hk
+      simp only [Bool.and_eq_true] at h1
+      simp only [ANode.tokensAreLeaves, Bool.and_eq_true]
+      refine ⟨?_, inFragMS_lex false ccs h1.1.2⟩
+      simp only [ANode.kind, Bool.or_eq_true, beq_iff_eq] at hk
+      rcases hk with hk | hk <;> (rw [hk]; rfl)
+    · split at h1
+      · split at h1
+        · exact inFrag_lex _ h1
+        · exact inFragM_lex _ h1
+      · simp only [Bool.and_eq_true] at h1; exact h1.1
 end
 
 theorem inFragL_mem {cs : List ANode} (h : inFragL cs = true) {c : ANode} (hc : c ∈ cs) : inFrag c = true := by
@@ -399,6 +443,52 @@ theorem inFragMS_seq (cs : List ANode) : ∀ hh, inFragMS hh cs = true → MathS
       · exact Or.inr (Or.inr (Or.inl h2))
       · exact Or.inr (Or.inr (Or.inr (Or.inl h2)))
       · exact Or.inr (Or.inr (Or.inr (Or.inr h2)))
+
+
+theorem inFragMA_step (ctx : Ctx) (hm : ctx.mode = .math) (c : ANode) (hh : Bool)
+    (h1 : (if isExpr c then (if hh then inFrag c else inFragM c)
+      else ANode.tokensAreLeaves c && (c.kind == .space || c.kind == .hash || isCommentKind c.kind || c.kind.isPlainToken || c.kind == .underscore)) = true) :
+    flowTakes c ∨ okA Q QM (ctx.withModeIf .code hh) c := by
+  have hone : inFragMS hh [c] = true := by
+    simp only [inFragMS, Bool.and_true]
+    exact h1
+  have := mathSeq_okSeq ctx hm [c] hh (inFragMS_seq [c] hh hone)
+  rcases this.1 with ht | ho
+  · exact Or.inl ht
+  · exact Or.inr (Or.inr ho)
+
+/-- The children of an argument list in math mode are acceptable to `convert_args_in_math`'s producer. -/
+theorem inFragMA_okSeq (ctx : Ctx) (hm : ctx.mode = .math) (cs : List ANode) :
+    ∀ hh, inFragMA hh cs = true → okSeq (okA Q QM) ctx hh cs := by
+  induction cs with
+  | nil => intro _ _; trivial
+  | cons c cs ih =>
+    intro hh h
+    cases c with
+    | leaf k t a =>
+      simp only [inFragMA, Bool.and_eq_true] at h
+      refine ⟨?_, ih _ h.2⟩
+      have h1 := h.1
+      by_cases hk : (k == .named || k == .spread) = true
+      · simp only [ANode.kind, hk, ↓reduceIte] at h1; cases h1
+      · simp only [ANode.kind, hk, Bool.false_eq_true, ↓reduceIte] at h1
+        exact inFragMA_step ctx hm _ hh h1
+    | inner k ccs a =>
+      simp only [inFragMA, Bool.and_eq_true] at h
+      refine ⟨?_, ih _ h.2⟩
+      have h1 := h.1
+      by_cases hk : (k == .named || k == .spread) = true
+      · simp only [ANode.kind, hk, ↓reduceIte, Bool.and_eq_true, Bool.not_eq_true'] at h1
+        obtain ⟨⟨hhf, hms⟩, hnu⟩ := h1
+        subst hhf
+        right; left
+        refine ⟨by simpa [Ctx.withModeIf] using hm, k, ccs, a, rfl, ?_, inFragMS_lex false ccs hms, inFragMS_seq ccs false hms, ?_⟩
+        · simpa using hk
+        · intro x hx heq
+          have := List.all_eq_true.mp hnu x hx
+          cases x <;> simp_all [ANode.kind]
+      · simp only [ANode.kind, hk, Bool.false_eq_true, ↓reduceIte] at h1
+        exact inFragMA_step ctx hm _ hh h1
 
 theorem inFragM_math_inner (c : ANode) (hk : c.kind = .math) (hq : inFragM c = true) :
     (∃ mcs a, c = .inner .math mcs a) ∨ (∃ a, c = .leaf .math "" a) := by
@@ -1998,7 +2088,7 @@ theorem convExprM_frag (e : Env) (r : Rec) (hr : RecOK r Q) (hrM : RecOKM r QM) 
             have hql := hq.2
             have hcnotargs : ∀ ics ia, callee ≠ .inner .args ics ia := by
               intro ics ia h; rw [h] at hxc; cases hxc
-            have hqcallee : inFragM callee = true ∧ inFragMS false acs = true := by
+            have hqcallee : inFragM callee = true ∧ inFragMA false acs = true := by
               cases callee with
               | leaf kk tt aa' =>
                 simp only [inFragMCallL, Bool.and_eq_true, Bool.and_true] at hql
@@ -2032,21 +2122,21 @@ theorem convExprM_frag (e : Env) (r : Rec) (hr : RecOK r Q) (hrM : RecOKM r QM) 
                 generalize hsp2d : trailSp (arest.dropLast.dropWhile isSpK) = sp2 at hinner hsp2 hemp
                 have hacs : lp :: arest = lp :: (sp1 ++ (core ++ (sp2 ++ [rp]))) := by
                   rw [hrest, hinner]; simp
-                have hseqA := inFragMS_seq (lp :: arest) false hqcallee.2
-                have hlexA := inFragMS_lex false (lp :: arest) hqcallee.2
+                have hseqA := inFragMA_okSeq ctx hm (lp :: arest) false hqcallee.2
+                have hlexA := inFragMA_lex false (lp :: arest) hqcallee.2
                 rw [hacs] at hseqA hlexA ⊢
                 have hs1 : ∀ x ∈ sp1, x.kind = .space := fun x hx => by
                   have := List.all_eq_true.mp hsp1 x hx; simpa [isSpK] using this
                 have hs2 : ∀ x ∈ sp2, x.kind = .space := fun x hx => by
                   have := List.all_eq_true.mp hsp2 x hx; simpa [isSpK] using this
-                simp only [MathSeqOK] at hseqA
+                have hseqT := hseqA.2
                 have hlpnh : (lp.kind == .hash) = false := by rw [hlpk]; rfl
-                rw [hlpnh] at hseqA
-                have hds := mathSeq_drop_spaces sp1 _ hs1 false hseqA.2.2
+                rw [hlpnh] at hseqT
+                have hds := okSeq_drop_spaces ctx sp1 _ hs1 false hseqT
                 simp only [ite_self] at hds
-                have hmidseq := mathSeq_prefix core (sp2 ++ [rp]) false hds
+                have hmidseq := okSeq_prefix ctx core (sp2 ++ [rp]) false hds
                 refine convFuncCallM_carries e r hrM ctx hm callee _ a hd' hxc hnf hqcallee.1 rfl ?_
-                refine convArgsInMath_carries_sp e r hr hrM ctx hm lp rp sp1 core sp2 aa hlpk hrpk hlexA hs1 hs2 ?_ ?_ ?_ hmidseq
+                refine convArgsInMath_carries_gen e r ctx (mathArgProducer_okA e r hr hrM) okA_space lp rp sp1 core sp2 aa hlpk hrpk hlexA hs1 hs2 ?_ ?_ ?_ hmidseq
                 · intro c hc
                   rw [hc] at hheadB
                   simpa using hheadB
